@@ -44,10 +44,22 @@ class HSys:
             self.usrc = AgenSource(self.rec, 1, items)
             self.U = self.usrc.gen
         else:
-            cls = {"send": SendSource, "throwonly": ThrowOnlySource, "cls": ClsSource, "noclose": ClsSourceNoClose}[ukind]
+            cls = {"send": SendSource, "throwonly": ThrowOnlySource, "cls": ClsSource, "noclose": ClsSourceNoClose,
+                   "iterable": ClsSource}[ukind]
             self.usrc = cls(self.rec, 1, items)
             self.U = self.usrc
         self.ukind = ukind
+        self.arg0 = self.U
+        if ukind == "iterable":
+            # what is handed to scoped_iter is an iterable that is not its own iterator (and has no aclose):
+            # the scope owns the iterator it obtains from it
+            usrc = self.usrc
+
+            class Iterable:
+                def __aiter__(self):
+                    return usrc
+
+            self.arg0 = Iterable()
         self.h = {0: self.U}
         self.scopes = {}   # handle id -> (context manager object)
         self.nh = 0
@@ -77,7 +89,7 @@ class HSys:
             return ("ok",)
         if op == "scope":
             self.nh += 1
-            cm = L.scoped_iter(self.h[a[2]])
+            cm = L.scoped_iter(self.arg0 if a[2] == 0 else self.h[a[2]])
             r = self.run(cm.__aenter__())
             if r[0] != "done":
                 return ("raised", r[1])
@@ -152,8 +164,8 @@ INVARIANT InOrder
 TIERS = {
     "C07": {"quick": [(2, 2, 4, False, True, False, ["cls", "agen", "throwonly", "noclose"]), (2, 1, 4, False, True, True, ["send"])],
             "thorough": [(3, 3, 5, False, True, False, ["cls", "agen", "throwonly", "noclose"]), (3, 2, 5, False, True, True, ["send"]), (2, 2, 6, False, True, False, ["cls"])]},
-    "C08": {"quick": [(2, 2, 4, True, False, False, ["cls", "agen"]), (2, 2, 4, True, True, False, ["cls"])],
-            "thorough": [(3, 3, 5, True, False, False, ["cls", "agen"]), (3, 3, 5, True, True, False, ["cls", "agen"]), (2, 2, 6, True, True, True, ["send"])]},
+    "C08": {"quick": [(2, 2, 4, True, False, False, ["cls", "agen", "iterable"]), (2, 2, 4, True, True, False, ["cls"])],
+            "thorough": [(3, 3, 5, True, False, False, ["cls", "agen", "iterable"]), (3, 3, 5, True, True, False, ["cls", "agen"]), (2, 2, 6, True, True, True, ["send"])]},
 }
 
 
